@@ -12,5 +12,5 @@ for d in seeded/${1:-}*/; do
   ./check $p --tier quick > .build/seedall-$id.log 2>&1; code=$?
   rule=$(grep -m1 "rule=" .build/seedall-$id.log | sed 's/^ *//' | cut -c1-130)
   if [ $code -eq 1 ]; then echo "CAUGHT $id by $p  $rule"; else echo "MISSED $id by $p (exit $code)"; fi
-  git -C "$REPO" checkout -- .
+  git -C "$REPO" checkout -- . ; git -C "$REPO" clean -fdq src
 done
